@@ -582,7 +582,15 @@ func c16Refresh(p *Prog, r *Report) {
 	poolsF := p.Field("proxycore", "Session", "pools")
 	var sb []string
 	addArm, remArm := false, false
-	eachCall(oe, func(c ssa.CallInstruction) {
+	// OnEvent and the private helpers its arms were moved into
+	var oeFns []*ssa.Function
+	for _, f := range withCallees(p, oe, 2) {
+		if f == oe || (f.Parent() == nil && recvNamed(f) == sess && onlyCalledFrom(p, f, oe, 3)) {
+			oeFns = append(oeFns, f)
+		}
+	}
+	for _, of := range oeFns {
+	eachCall(of, func(c ssa.CallInstruction) {
 		args := c.Common().Args
 		if len(args) == 0 {
 			return
@@ -599,6 +607,28 @@ func c16Refresh(p *Prog, r *Report) {
 				}
 			}
 		}
+		if arm == "" {
+			// a helper called from the arm
+			if sites, only := p.staticCallSites(of); only {
+				for _, site := range sites {
+					for _, ct := range dominatingConds(site.Block()) {
+						if ex, ok := ct.Cond.(*ssa.Extract); ok && ct.Truth {
+							if ta, ok := ex.Tuple.(*ssa.TypeAssert); ok {
+								arm = shortType(ta.AssertedType)
+							}
+						}
+					}
+				}
+			}
+		}
+		if arm == "" {
+			// a helper that is handed the typed event
+			for _, par := range of.Params {
+				if typeIs(par.Type(), "proxycore", "AddEvent") || typeIs(par.Type(), "proxycore", "RemoveEvent") {
+					arm = shortType(par.Type())
+				}
+			}
+		}
 		if (callIsMethod(c, "sync", "Map", "LoadOrStore") || callIsMethod(c, "sync", "Map", "Store")) && arm == "*proxycore.AddEvent" {
 			addArm = true
 		}
@@ -606,15 +636,18 @@ func c16Refresh(p *Prog, r *Report) {
 			remArm = true
 		}
 	})
+	}
 	// removal cancels the pool
 	cancels := 0
-	eachInstr(oe, func(in ssa.Instruction) {
+	for _, of := range oeFns {
+	eachInstr(of, func(in ssa.Instruction) {
 		if c, ok := in.(*ssa.Call); ok && c.Call.StaticCallee() == nil && !c.Call.IsInvoke() {
 			if f, _ := loadedField(c.Call.Value); f != nil && f.Name() == "cancel" {
 				cancels++
 			}
 		}
 	})
+	}
 	if !addArm {
 		sb = append(sb, "AddEvent does not create a pool for the new host")
 	}
@@ -856,7 +889,13 @@ func c16AddKeepsPool(p *Prog, r *Report) {
 	poolsF := p.Field("proxycore", "Session", "pools")
 	var bad []string
 	n := 0
-	for _, fn := range withClosures(onEvent) {
+	var scanFns []*ssa.Function
+	for _, f := range withCallees(p, onEvent, 2) {
+		if f == onEvent || (f.Parent() == nil && recvNamed(f) == sess && onlyCalledFrom(p, f, onEvent, 3)) {
+			scanFns = append(scanFns, withClosures(f)...)
+		}
+	}
+	for _, fn := range scanFns {
 		eachCall(fn, func(c ssa.CallInstruction) {
 			if !callIsMethod(c, "sync", "Map", "LoadOrStore") {
 				return
